@@ -27,13 +27,22 @@ deriving DecidableEq, Repr
 (`target`) and temporary files (numbered). Inode ids are indices into `inodes`; inodes are never freed
 (an unlinked inode just is no longer named). `thist` lists every binding the store path has had since the
 directory was last known to be on stable storage, newest first: after a power loss any of them can be
-what the directory holds (`none` = the name does not exist). -/
+what the directory holds (`none` = the name does not exist).
+
+`tmps` lists the other files of the directory as (name, inode): name `0` is the fixed name `<store>.tmp`,
+names `≥ 1` stand for `<store>.<random>.tmp`. They may be left-overs of earlier crashes.
+
+The store path may be a **symbolic link** (`isLink`): every call that takes the store path (`Stat`,
+`OpenFile`, the loader's `Open`) resolves the link, so `target` is the inode of the link's destination, which
+is also named by the destination path itself (`dest`). `rename(tmp, path)` does NOT resolve it: it replaces
+the link by the regular file (`isLink := false`), and the old destination keeps its inode and content. -/
 structure FS where
   inodes : List Inode
   target : Option Nat
   thist : List (Option Nat)
   tmps : List (Nat × Nat)
-  next : Nat
+  isLink : Bool
+  dest : Option Nat
 deriving DecidableEq, Repr
 
 /-- update one inode -/
@@ -44,7 +53,16 @@ def upd : List Inode → Nat → (Inode → Inode) → List Inode
 
 /-- start state: the store path names a file that holds `doc` and is on stable storage; nothing else -/
 def initFS (doc : Bytes) : FS :=
-  { inodes := [⟨doc, true⟩], target := some 0, thist := [some 0], tmps := [], next := 0 }
+  { inodes := [⟨doc, true⟩], target := some 0, thist := [some 0], tmps := [], isLink := false, dest := none }
+
+/-- the same store reached through a symbolic link -/
+def initLinkFS (doc : Bytes) : FS :=
+  { inodes := [⟨doc, true⟩], target := some 0, thist := [some 0], tmps := [], isLink := true, dest := some 0 }
+
+/-- a temporary name that is not in the directory and is not the fixed name `0`: what `os.CreateTemp` with
+a `*` pattern yields (it retries on EEXIST until the random name is new) -/
+def freshName (tmps : List (Nat × Nat)) : Nat :=
+  tmps.foldl (fun m p => max m p.1) 0 + 1
 
 /-- The file-system calls `saveToFile` can make (receiver / arguments are fixed by the extractor:
 `openTrunc`, `statTarget`, `rename… ToTarget` act on the store path; `write/chmod/sync/close` on the one
@@ -53,6 +71,7 @@ inductive FsOp
   | statTarget          -- os.Stat(path): reads metadata only
   | openTrunc           -- os.OpenFile(path, O_WRONLY|O_CREATE|O_TRUNC, perm): truncates the existing file in place
   | createTemp          -- os.CreateTemp(dir(path), base(path)+".*.tmp"): new empty file under a fresh name
+  | createExcl          -- os.OpenFile(path+".tmp", O_WRONLY|O_CREATE|O_EXCL): the FIXED name; EEXIST if it is there
   | write               -- f.Write(document): appends at the file offset; can stop after any byte count
   | chmod               -- f.Chmod(perm)
   | sync                -- f.Sync()
@@ -83,6 +102,17 @@ def progWriteFile : List Stmt :=
 def progTempRename : List Stmt :=
   [.op .always false .statTarget,
    .op .always true .createTemp, .retIfErr,
+   .op .always true .write,
+   .op .ifOk true .chmod,
+   .op .ifOk true .sync,
+   .op .always true .close,
+   .op .ifOk true .renameTmpToTarget,
+   .op .ifErr false .removeTmp, .retIfErr]
+
+/-- the temp-file program with one well-known temporary name instead of a fresh one -/
+def progExclTmp : List Stmt :=
+  [.op .always false .statTarget,
+   .op .always true .createExcl, .retIfErr,
    .op .always true .write,
    .op .ifOk true .chmod,
    .op .ifOk true .sync,
@@ -122,8 +152,14 @@ def execOk (doc : Bytes) (o : FsOp) (r : Run) : Run :=
                fd := some id }
   | .createTemp =>
     let id := r.fs.inodes.length
-    { r with fs := { r.fs with inodes := r.fs.inodes ++ [⟨[], false⟩], tmps := (r.fs.next, id) :: r.fs.tmps, next := r.fs.next + 1 },
-             fd := some id, tmp := some r.fs.next }
+    let nm := freshName r.fs.tmps
+    { r with fs := { r.fs with inodes := r.fs.inodes ++ [⟨[], false⟩], tmps := (nm, id) :: r.fs.tmps },
+             fd := some id, tmp := some nm }
+  | .createExcl =>
+    -- reached only when the fixed name is free (see `execOp`)
+    let id := r.fs.inodes.length
+    { r with fs := { r.fs with inodes := r.fs.inodes ++ [⟨[], false⟩], tmps := (0, id) :: r.fs.tmps },
+             fd := some id, tmp := some 0 }
   | .write => writeBytes r doc
   | .chmod => r
   | .sync =>
@@ -133,7 +169,7 @@ def execOk (doc : Bytes) (o : FsOp) (r : Run) : Run :=
   | .close => { r with fd := none }
   | .renameTmpToTarget =>
     match r.tmp.bind (fun t => r.fs.tmps.lookup t) with
-    | some id => { r with fs := { r.fs with target := some id, thist := some id :: r.fs.thist,
+    | some id => { r with fs := { r.fs with target := some id, thist := some id :: r.fs.thist, isLink := false,
                                             tmps := r.fs.tmps.filter (fun p => some p.1 != r.tmp) } }
     | none => r
   | .removeTmp => { r with fs := { r.fs with tmps := r.fs.tmps.filter (fun p => some p.1 != r.tmp) } }
@@ -148,6 +184,7 @@ def execFail (doc : Bytes) (o : FsOp) (r : Run) (k : Nat) : Run :=
 
 /-- one call; `fail = some k` makes it fail (a write: after `k` bytes) -/
 def execOp (doc : Bytes) (o : FsOp) (rec : Bool) (r : Run) (fail : Option Nat) : Run :=
+  let fail := if o = .createExcl && (r.fs.tmps.lookup 0).isSome then some 0 else fail  -- EEXIST
   match fail with
   | none => execOk doc o r
   | some k => let r' := execFail doc o r k; if rec then { r' with err := true } else r'
@@ -356,7 +393,7 @@ def Guard.ofString? : String → Option Guard
   | "always" => some .always | "ifOk" => some .ifOk | "ifErr" => some .ifErr | _ => none
 
 def FsOp.ofString? : String → Option FsOp
-  | "statTarget" => some .statTarget | "openTrunc" => some .openTrunc | "createTemp" => some .createTemp
+  | "statTarget" => some .statTarget | "openTrunc" => some .openTrunc | "createTemp" => some .createTemp | "createExcl" => some .createExcl
   | "write" => some .write | "chmod" => some .chmod | "sync" => some .sync | "close" => some .close
   | "renameTmpToTarget" => some .renameTmpToTarget | "removeTmp" => some .removeTmp | _ => none
 
